@@ -1467,7 +1467,15 @@ class Engine:
                 # an address computed from memory that was never initialised on this path: only reachable through
                 # a combination of reads that the global consistency check has to rule out
                 raise EngineError('uninit-pointer', 'address depends on uninitialised memory at %s' % self.loc(ins))
-            raise Unsupported('%s at %s' % (e, self.loc(ins)))
+            nodom = []
+            for ev in st.events[-400:]:
+                if ev.rval is not None and not isinstance(ev.rval, int) and ev.rval.get_id() not in self.sym_domain:
+                    try:
+                        if str(ev.rval) in str(v)[:4000]:
+                            nodom.append('%s@%#x(%s)' % (ev.rval, ev.addr or 0, self.loc(ev.ins).split(' <- ')[-1][:60]))
+                    except Exception:
+                        pass
+            raise Unsupported('%s at %s; symbols without a finite domain in the term: %s' % (e, self.loc(ins), nodom[:4]))
         if not vals:
             st.status = 'infeasible'
             return []
